@@ -367,11 +367,13 @@ def b_copy_(P, s, a, b, c, name):
         if i is None:
             return None
         d = P.vals[i]
-        j = P.pick(s[1], lambda v: isinstance(v, QBytesTensor) and v.qtype == d.qtype and v.shape == d.shape and v.dtype == d.dtype and v is not d and v.axis == d.axis)
+        j = P.pick(s[1], lambda v: isinstance(v, QBytesTensor) and v.qtype == d.qtype and v.shape == d.shape and v is not d and (v.axis == d.axis or v.axis is None))
         extra = []
-        if j is None:
-            x = _values(list(d.shape), d.dtype, 4000 + b, 1.0)
-            if d.axis is None:
+        if j is None or b % 3 == 1:
+            # fresh source: same layout, or (b % 3 == 1) a per-tensor source of ANOTHER float dtype
+            sdt = d.dtype if b % 3 != 1 else DTYPES[(DTYPES.index(d.dtype) + 1 + b % 2) % 3] if d.dtype in DTYPES else torch.float32
+            x = _values(list(d.shape), sdt, 4000 + b, 1.0)
+            if d.axis is None or b % 3 == 1:
                 sc = absmax_scale(x, d.qtype)
                 sc = torch.where(sc > 0, sc, torch.ones_like(sc))
                 extra = [("fresh", quantize_activation(x, d.qtype, sc))]
@@ -380,7 +382,10 @@ def b_copy_(P, s, a, b, c, name):
             srcop = ("x", 0)
         else:
             srcop = ("p", j)
-    return dict(f=lambda d, s_: d.copy_(s_), ops=[("p", i), srcop], extra=extra, klass="move", inplace=0)
+    srcv = extra[0][1] if srcop[0] == "x" else P.vals[srcop[1]]
+    # a copy between float dtypes is a dtype move: the float program rounds the source values to the source dtype first
+    klass = "move" if getattr(srcv, "dtype", None) == d.dtype else "rescale"
+    return dict(f=lambda d, s_: d.copy_(s_), ops=[("p", i), srcop], extra=extra, klass=klass, inplace=0)
 
 
 def b_scalar(P, s, a, b, c, name):
@@ -899,9 +904,13 @@ def run_program(case, mode, out=None):
         if klass in ("rescale", "neg"):
             src = operands[0]
             info["factor"] = r.get("factor", 1.0)
+            for o in operands[1:]:
+                if isinstance(o, torch.Tensor) and o.dtype in gen.U:
+                    info["u_src"] = max(info.get("u_src", 0), gen.U[o.dtype])
+                    info["eta_src"] = max(info.get("eta_src", 0), gen.ETA[o.dtype])
             if isq(src):
-                info["u_src"] = gen.U.get(src.dtype, 0)
-                info["eta_src"] = gen.ETA.get(src.dtype, 0)
+                info["u_src"] = max(info.get("u_src", 0), gen.U.get(src.dtype, 0))
+                info["eta_src"] = max(info.get("eta_src", 0), gen.ETA.get(src.dtype, 0))
                 if isinstance(src, QBytesTensor):
                     info["cmax"] = float(O.codes64(src).abs().max()) if src.numel() else 1.0
                     if klass == "neg" and not src.qtype.is_floating_point:
